@@ -922,6 +922,7 @@ package serf
 //@ end
 
 //@ func (s *Serf) Shutdown() (err error)
+//@   logcalls shutdown
 //@   requires wf: wfLifecycle(s)
 //@   oldlet c0 := callN()
 //@   oldlet closed0 := closed(s.shutdownCh)
@@ -1176,6 +1177,7 @@ package serf
 
 //@ func (m *memberlist.Memberlist) LocalNode() (n *memberlist.Node)
 //@   trusted
+//@   logcalls localnode
 //@   assigns
 //@   ensures nonnil: n != nil && allocated(n)
 //@ end
@@ -1200,7 +1202,7 @@ package serf
 //@   let acks := r.acks
 //@   ensures fresh_object [C07]: r != nil && !old(allocated(r)) && allocated(r) && !r.closed && r.id == q.ID && r.lTime == q.LTime
 //@   ensures ack_stream_iff_asked [C07]: (ackCh != nil) == q.Ack() && (ackCh == nil) == (acks == nil)
-//@   ensures empty_streams [C07]: sentN(respCh) == 0 && (ackCh != nil ==> sentN(ackCh) == 0)
+//@   ensures empty_streams [C07]: sentN(respCh) == 0 && (ackCh != nil ==> sentN(ackCh) == 0) && recvN(respCh) == 0
 //@   ensures allocated_parts [C07]: (ackCh != nil ==> allocatedRef(ackCh) && allocatedRef(acks)) && allocatedRef(respCh) && allocatedRef(responses)
 //@   ensures wf [C07]: wfReplies(r)
 //@   # the streams and dedup sets are new objects: nothing that existed before is one of them
@@ -1222,6 +1224,7 @@ package serf
 //@ end
 
 //@ func (s *Serf) Query(name string, payload []byte, params *QueryParam) (r *QueryResponse, err error)
+//@   logcalls query
 //@   requires wf: wfQueries(s) && wfMembers(s) && hasMember(s, s.config.NodeName) && wfRunningQueries(s) && s.memberlist != nil && s.config.MemberlistConfig != nil
 //@   requires eventch_open: s.config.EventCh == nil || !closed(s.config.EventCh)
 //@   requires error_values: FeatureNotSupported != nil
@@ -1240,7 +1243,17 @@ package serf
 //@       uint64(r.lTime)+1 == logAt[uint64]("mint.LamportClock.counter", mint0) && r.lTime >= clk0
 //@   # C07: the reply streams are registered under that time
 //@   ensures registered [C07]: err == nil ==> mapHas(s.queryResponse, r.lTime) && mapAt(s.queryResponse, r.lTime) == r && wfRunningQueries(s)
+//@   ensures nothing_received_yet [C07]: err == nil ==> recvN(r.respCh) == 0
 //@ end
+
+// a reply to the conflict query is valid when it carries the conflict-response type byte and a decodable member
+//@ pure func validConflictReply(x NodeResponse) bool {
+//@   return len(x.Payload) >= 1 && messageType(x.Payload[0]) == messageConflictResponseType && decodeOK[Member](x.Payload[1:])
+//@ }
+// ... and attributes the name to this node when the member it carries has this node's address and port
+//@ pure func conflictReplyIsMine(x NodeResponse, me *memberlist.Node) bool {
+//@   return validConflictReply(x) && decoded[Member](x.Payload[1:]).Addr.Equal(me.Addr) && decoded[Member](x.Payload[1:]).Port == me.Port
+//@ }
 
 // name conflicts: the replies are whatever the peers sent (C09; the majority count itself is C36, not claimed)
 //@ func (s *Serf) handleNodeConflict(existing, other *memberlist.Node)
@@ -1250,8 +1263,26 @@ package serf
 //@   requires wf: wfQueries(s) && wfMembers(s) && hasMember(s, s.config.NodeName) && wfRunningQueries(s) && wfLifecycle(s) && s.config.MemberlistConfig != nil
 //@   requires eventch_open: s.config.EventCh == nil || !closed(s.config.EventCh)
 //@   requires error_values: FeatureNotSupported != nil
-//@   loop 1 vars responses int, matching int
-//@   loop 1 invariant counted: 0 <= matching && matching <= responses
+//@   oldlet q0 := callNOf("query")
+//@   oldlet sd0 := callNOf("shutdown")
+//@   # the replies counted are the ones received on the response stream of the query this call issued
+//@   let ch := callResOf[*QueryResponse]("query", q0).respCh
+//@   oldlet ln0 := callNOf("localnode")
+//@   let me := callResOf[*memberlist.Node]("localnode", ln0)
+//@   ensures one_query [C36]: callNOf("query") == q0+1
+//@   # shut down exactly when fewer than a strict majority of the valid replies attribute the name to this node
+//@   ensures decided_by_strict_majority [C36]: callRetOf("query", q0) ==>
+//@       (callNOf("shutdown") == sd0+1) == (countRecv(ch, 0, recvN(ch), func(x NodeResponse) bool { return conflictReplyIsMine(x, me) }) <
+//@           countRecv(ch, 0, recvN(ch), func(x NodeResponse) bool { return validConflictReply(x) })/2+1) &&
+//@       callNOf("shutdown") <= sd0+1
+//@   ensures query_failed_no_shutdown [C36]: !callRetOf("query", q0) ==> callNOf("shutdown") == sd0
+//@   loop 1 vars responses int, matching int, respCh <-chan NodeResponse, local *memberlist.Node
+//@   # malformed replies are ignored: the counters are exactly the numbers of valid replies and of valid replies naming this node
+//@   loop 1 invariant counted_valid [C36]: responses == countRecv(respCh, 0, recvN(respCh), func(x NodeResponse) bool { return validConflictReply(x) })
+//@   loop 1 invariant counted_mine [C36]: matching == countRecv(respCh, 0, recvN(respCh), func(x NodeResponse) bool { return conflictReplyIsMine(x, local) })
+//@   loop 1 invariant bounds [C36]: 0 <= matching && matching <= responses && recvN(respCh) >= 0 && callNOf("shutdown") == sd0 && callNOf("query") == q0+1
+//@   loop 1 invariant same_stream [C36]: same(respCh, callResOf[*QueryResponse]("query", q0).respCh) && local != nil &&
+//@       local == callResOf[*memberlist.Node]("localnode", ln0) && callRetOf("query", q0)
 //@ end
 
 // END-OF-CONTRACTS
